@@ -105,7 +105,7 @@ class ProgramGen(object):
                  'elifchain', 'commentbody', 'parenwith', 'tripledq', 'mlstr_trailing', 'raises_expected',
                  'raises_compound', 'markercomment', 'bscomment', 'padded', 'brblank', 'mlstr_wsline',
                  'mlstr_hashclose', 'usepriv', 'sep_out', 'sep_literal',
-                 'deco_comment', 'else_comment', 'ml_semi']
+                 'deco_comment', 'else_comment', 'ml_semi', 'annot_effect']
 
     def __init__(self, rng, kinds=None, allow_async=True):
         self.rng = rng
@@ -335,6 +335,11 @@ class ProgramGen(object):
             # a second statement behind a semicolon on the closing line of a multi-line statement (finding F39)
             self.defined_vars.append('v%d' % i)
             return S(['v%d = [%d,' % (i, i), '    quiet(%d)]; emit(%d)' % (i, i)], k, i, is_expr=True)
+        if k == 'annot_effect':
+            # an annotation whose evaluation is observable: it runs when the def statement runs (unless the module under
+            # test really has 'from __future__ import annotations')
+            self.defined_funcs.append('f%d' % i)
+            return S(['def f%d(a: quiet(%d) = None):' % (i, i), '    return a'], k, i)
         if k == 'usepriv':
             # names with a leading underscore that the doctest does not bind itself
             return S(['_q_zz(_K_ZZ + %d)' % i], k, i, is_expr=True)
